@@ -117,12 +117,13 @@ class C10:
                'agreement = membership; the theorems hold for every processing order',
                'the dict {int(x): y} + sorted(keys) is modelled as a key-sorted association list with overwrite',
                'round count observed with sys.monitoring LINE events on the first statement of the while body of getPoints']
-    timeout = 4.0
+    timeout = 3.0
+    round_cap = 6000      # far above any K + n + 2 in the generated domain (dz >= 0.01): a run that exceeds it is cut off
     shard = 120
 
     def generate(self, rng, tier):
         cases = []
-        nreg = {'quick': 420, 'search': 300, 'thorough': 9000}.get(tier, 420)
+        nreg = {'quick': 420, 'search': 300, 'thorough': 20000}.get(tier, 420)
         nmax = {'quick': 18, 'search': 14, 'thorough': 64}.get(tier, 18)
         off = rng.randrange(10007)
         for k in range(nreg):
@@ -192,9 +193,13 @@ class C10:
                 if mon.get_tool(tool) is None:
                     mon.use_tool_id(tool, 'c10')
 
+                cap = self.round_cap
+
                 def on_line(co, ln):
                     if co is code and ln == line:
                         count[0] += 1
+                        if count[0] > cap:
+                            raise RoundLimit()
                 mon.register_callback(tool, mon.events.LINE, on_line)
                 mon.set_local_events(tool, code, mon.events.LINE)
                 armed = True
@@ -248,12 +253,24 @@ class C10:
                 'x_max': 'default' if not c.get('xmax') else 'given', 'y_range': 'default' if not c.get('yrange') else 'given',
                 'dz': c['dz'], 'tied_z': len(set(zs)) < len(zs),
                 'rounds': 'n/a' if c.get('rounds') is None else min(c['rounds'] // 10 * 10, 300),
-                'malformed_returns_empty': (out == []) if n < 4 else 'n/a',
                 'outcome': c.get('exc') or 'ok'}
 
     def shrink(self, c):
         out = []
         n = len(c['ks'])
+        if c.get('exc') == 'timeout':       # each candidate costs a full time-out: propose only a few
+            for lo, hi in ((0, n // 2), (n // 2, n), (0, 4), (n - 4, n)):
+                if hi - lo >= 4 and hi - lo < n:
+                    d = dict(c)
+                    d['ks'], d['ys'] = c['ks'][lo:hi], c['ys'][lo:hi]
+                    out.append(d)
+            for key in ('xmax', 'yrange'):
+                if c.get(key):
+                    d = dict(c); d[key] = None; out.append(d)
+            for d in out:
+                for k in ('zs', 'out', 'rounds', 'exc'):
+                    d.pop(k, None)
+            return out
         for j in range(n):
             if n > 4:
                 d = dict(c)
@@ -283,6 +300,10 @@ class C10:
         return ('kneeliverse.zmethod.knees(np.array(%s, dtype=float), dx=%r, dy=%r, dz=%r, x_max=%r, y_range=%r)  # returned %s after %s rounds%s'
                 % ([[k, y] for k, y in zip(c['ks'], c['ys'])], c['dx'], c['dy'], c['dz'], c.get('xmax'), c.get('yrange'),
                    c.get('out'), c.get('rounds'), (' (' + c['exc'] + ')') if c.get('exc') else ''))
+
+
+class RoundLimit(Exception):
+    """the while loop of getPoints ran more than round_cap times (reported like a time-out: no result)"""
 
 
 def as_nat_list(a):
